@@ -562,6 +562,35 @@ let emit tier cfgs seed =
                     (sp "etl::is_destructible_v<%s%s> == std::is_destructible_v<%s%s> && etl::is_nothrow_destructible_v<%s%s> == std::is_nothrow_destructible_v<%s%s> && etl::is_copy_constructible_v<%s%s> == std::is_copy_constructible_v<%s%s> && etl::is_move_assignable_v<%s%s> == std::is_move_assignable_v<%s%s> && etl::is_trivially_destructible_v<%s%s> == std::is_trivially_destructible_v<%s%s>" x sfx x sfx x sfx x sfx x sfx x sfx x sfx x sfx x sfx x sfx))
         (List.filter (fun sfx -> not (sfx = " const" && x = "zb::D const")) [ "[2]"; "[2][3]"; "&"; "&&"; " const"; "*" ]))
     (List.filter (fun x -> x <> "void" && x <> "int") fam);
+  (* ---- etl::meta lists built from the zoo (with repetitions): every operation against ModelMeta.v *)
+  let rec int_of_nat = function O -> 0 | S n -> 1 + int_of_nat n in
+  let rec nat_of_int i = if i <= 0 then O else S (nat_of_int (i - 1)) in
+  let tarr = Array.of_list types in
+  let nt = Array.length tarr in
+  let mlist l = "etl::meta::list<" ^ String.concat ", " (List.map tref l) ^ ">" in
+  let nlists = if tier = "quick" then 24 else 120 in
+  for j = 0 to nlists - 1 do
+    let len = j mod 7 in
+    let l = List.init len (fun i -> if i = 3 then tarr.((11 * j + seed) mod nt) (* repeats element 0 *)
+                                    else tarr.((11 * j + 5 * i + seed) mod nt)) in
+    let lk = sp "list %d: <%s>" j (String.concat ", " (List.map cxx l)) in
+    let needles = (tarr.((11 * j + 1 + seed) mod nt)) :: (if len > 0 then [ List.nth l 0; List.nth l (len - 1) ] else []) in
+    List.iter (fun n ->
+        obl "corr" "meta::count" lk (sp "etl::meta::count_v<%s, %s> == %d" (tref n) (mlist l) (int_of_nat (count_m n l)));
+        obl "corr" "meta::contains" lk (sp "etl::meta::contains_v<%s, %s> == %s" (tref n) (mlist l) (bs (contains_m n l)));
+        (match index_of_m n l with
+         | Some i -> obl "corr" "meta::index_of" lk (sp "etl::meta::index_of_v<%s, %s> == %d" (tref n) (mlist l) (int_of_nat i))
+         | None -> ());
+        obl "corr" "meta::push_back" lk (sp "std::is_same_v<etl::meta::push_back_t<%s, %s>, %s>" (tref n) (mlist l) (mlist (push_back_m n l)));
+        obl "corr" "meta::push_front" lk (sp "std::is_same_v<etl::meta::push_front_t<%s, %s>, %s>" (tref n) (mlist l) (mlist (push_front_m n l))))
+      needles;
+    List.iteri (fun i _ ->
+        match at_m (nat_of_int i) l with
+        | Some x -> obl "corr" "meta::at" lk (sp "std::is_same_v<etl::meta::at_t<%d, %s>, %s>" i (mlist l) (tref x))
+        | None -> ()) l;
+    (match head_m l with Some x -> obl "corr" "meta::head" lk (sp "std::is_same_v<etl::meta::head_t<%s>, %s>" (mlist l) (tref x)) | None -> ());
+    (match tail_m l with Some x -> obl "corr" "meta::tail" lk (sp "std::is_same_v<etl::meta::tail_t<%s>, %s>" (mlist l) (mlist x)) | None -> ())
+  done;
   (* ---- aligned_storage<Len>: "default-alignment shall be the most stringent alignment requirement for any
           C++ object type whose size is no greater than Len" ([meta.trans.other]); libstdc++ over-aligns (16 for
           every Len), so the obligation is the standard's wording over the fundamental object types *)
@@ -582,6 +611,11 @@ let emit tier cfgs seed =
       "declval", "std::is_same_v<decltype(etl::declval<int>()), int&&> && std::is_same_v<decltype(etl::declval<int&>()), int&> && std::is_same_v<decltype(etl::declval<void>()), void> && std::is_same_v<decltype(etl::declval<int const[2]>()), int const(&&)[2]> && noexcept(etl::declval<int>())";
       "ratio SI typedefs", "std::ratio_equal_v<std::ratio<etl::atto::num, etl::atto::den>, std::atto> && std::ratio_equal_v<std::ratio<etl::femto::num, etl::femto::den>, std::femto> && std::ratio_equal_v<std::ratio<etl::pico::num, etl::pico::den>, std::pico> && std::ratio_equal_v<std::ratio<etl::nano::num, etl::nano::den>, std::nano> && std::ratio_equal_v<std::ratio<etl::micro::num, etl::micro::den>, std::micro> && std::ratio_equal_v<std::ratio<etl::milli::num, etl::milli::den>, std::milli> && std::ratio_equal_v<std::ratio<etl::centi::num, etl::centi::den>, std::centi> && std::ratio_equal_v<std::ratio<etl::deci::num, etl::deci::den>, std::deci> && std::ratio_equal_v<std::ratio<etl::deca::num, etl::deca::den>, std::deca> && std::ratio_equal_v<std::ratio<etl::hecto::num, etl::hecto::den>, std::hecto> && std::ratio_equal_v<std::ratio<etl::kilo::num, etl::kilo::den>, std::kilo> && std::ratio_equal_v<std::ratio<etl::mega::num, etl::mega::den>, std::mega> && std::ratio_equal_v<std::ratio<etl::giga::num, etl::giga::den>, std::giga> && std::ratio_equal_v<std::ratio<etl::tera::num, etl::tera::den>, std::tera> && std::ratio_equal_v<std::ratio<etl::peta::num, etl::peta::den>, std::peta> && std::ratio_equal_v<std::ratio<etl::exa::num, etl::exa::den>, std::exa>";
       "is_constant_evaluated", "etl::is_constant_evaluated()";
+      "invoke_result member pointers", "z::invoke_result_agrees<int (zb::B::*)(int), zb::B&, int> && z::invoke_result_agrees<int (zb::B::*)(int), zb::B*, int> && z::invoke_result_agrees<int (zb::B::*)(int), zb::D&, long> && z::invoke_result_agrees<int (zb::B::*)(int), zb::B const&, int> && z::invoke_result_agrees<int (zb::B::*)(int) const, zb::B const&, int> && z::invoke_result_agrees<int (zb::B::*)(int) &&, zb::B&, int> && z::invoke_result_agrees<int (zb::B::*)(int) &&, zb::B, int> && z::invoke_result_agrees<int zb::B::*, zb::B&> && z::invoke_result_agrees<int zb::B::*, zb::D*> && z::invoke_result_agrees<int zb::B::*, zb::B const> && z::invoke_result_agrees<int zb::B::*, zb::B&, int> && z::invoke_result_agrees<int zb::B::*, int> && z::invoke_result_agrees<int (zb::B::*)(int), zb::P&, int> && z::invoke_result_agrees<int (zb::B::*)(int) noexcept, zb::I*, char>";
+      "is_invocable member pointers", "etl::is_invocable_v<int (zb::B::*)(int), zb::B&, int> == std::is_invocable_v<int (zb::B::*)(int), zb::B&, int> && etl::is_invocable_v<int (zb::B::*)(int), zb::B const&, int> == std::is_invocable_v<int (zb::B::*)(int), zb::B const&, int> && etl::is_invocable_v<int zb::B::*, zb::D*> == std::is_invocable_v<int zb::B::*, zb::D*> && etl::is_invocable_v<int zb::B::*, zb::M&> == std::is_invocable_v<int zb::B::*, zb::M&> && etl::is_invocable_r_v<long, int zb::B::*, zb::B&> == std::is_invocable_r_v<long, int zb::B::*, zb::B&> && etl::is_invocable_r_v<int&, int zb::B::*, zb::B&> == std::is_invocable_r_v<int&, int zb::B::*, zb::B&> && etl::is_invocable_r_v<int&, int zb::B::*, zb::B> == std::is_invocable_r_v<int&, int zb::B::*, zb::B>";
+      "byte", "etl::to_integer<int>(etl::byte{5} << 2) == std::to_integer<int>(std::byte{5} << 2) && etl::to_integer<unsigned>(etl::byte{0xF0} >> 3) == std::to_integer<unsigned>(std::byte{0xF0} >> 3) && etl::to_integer<int>(etl::byte{0x81} << 1) == std::to_integer<int>(std::byte{0x81} << 1) && etl::to_integer<int>(etl::byte{0xA5} | etl::byte{0x0F}) == std::to_integer<int>(std::byte{0xA5} | std::byte{0x0F}) && etl::to_integer<int>(etl::byte{0xA5} & etl::byte{0x0F}) == std::to_integer<int>(std::byte{0xA5} & std::byte{0x0F}) && etl::to_integer<int>(etl::byte{0xA5} ^ etl::byte{0xFF}) == std::to_integer<int>(std::byte{0xA5} ^ std::byte{0xFF}) && etl::to_integer<int>(~etl::byte{0xA5}) == std::to_integer<int>(~std::byte{0xA5}) && etl::to_integer<signed char>(etl::byte{0xFF}) == std::to_integer<signed char>(std::byte{0xFF}) && sizeof(etl::byte) == 1";
+      "numeric_limits primary template", "!etl::numeric_limits<int*>::is_specialized && etl::numeric_limits<int*>::digits == 0 && !etl::numeric_limits<zb::B>::is_specialized && !etl::numeric_limits<zb::B>::is_signed && etl::numeric_limits<zb::B>::radix == 0 && etl::numeric_limits<int*>::max() == nullptr && etl::numeric_limits<int const volatile>::max() == std::numeric_limits<int const volatile>::max() && std::is_same_v<decltype(etl::numeric_limits<short const>::min()), short> && etl::numeric_limits<zb::B>::round_style == etl::round_toward_zero && etl::numeric_limits<zb::B>::has_denorm == etl::denorm_absent";
+      "float_round_style / float_denorm_style", "static_cast<int>(etl::round_indeterminate) == static_cast<int>(std::round_indeterminate) && static_cast<int>(etl::round_toward_zero) == static_cast<int>(std::round_toward_zero) && static_cast<int>(etl::round_to_nearest) == static_cast<int>(std::round_to_nearest) && static_cast<int>(etl::round_toward_infinity) == static_cast<int>(std::round_toward_infinity) && static_cast<int>(etl::round_toward_neg_infinity) == static_cast<int>(std::round_toward_neg_infinity) && static_cast<int>(etl::denorm_indeterminate) == static_cast<int>(std::denorm_indeterminate) && static_cast<int>(etl::denorm_absent) == static_cast<int>(std::denorm_absent) && static_cast<int>(etl::denorm_present) == static_cast<int>(std::denorm_present)";
     ];
   (* ---- ill-formed instantiations (each its own TU): expect 1 = compiles, 0 = rejected *)
   let neg leg trait key expect snippet = line [ "N"; leg; trait; key; (if expect then "1" else "0"); snippet ] in
